@@ -72,6 +72,7 @@ type execError struct{ msg string }
 
 type Exec struct {
 	e        *Engine
+	bankErrOnlyInsufficient bool // set by the BurnCoins model for the next bankOp
 	specs    *SpecDB
 	obls     []*Obligation
 	root     *FuncSpec
@@ -343,7 +344,17 @@ func (x *Exec) execBlock(st *State, fr *Frame, b *ssa.BasicBlock, prev *ssa.Basi
 		}
 		sort.Ints(objs)
 		for _, o := range objs {
+			before := st.Heap[o]
 			st.Heap[o] = x.havocLike(st, st.Heap[o], o)
+			if x.e.iterPosObjs[o] {
+				// the position of a store iterator starts at 0 and is only ever advanced by Next: across any loop
+				// it does not decrease (an invariant of the iterator model, not of the program)
+				if b, ok := before.(T); ok {
+					if a, ok := st.Heap[o].(T); ok && a.So == SInt && b.So == SInt {
+						st.assume(Ge(a, b), "iterator position only advances")
+					}
+				}
+			}
 		}
 		var gs []string
 		for g := range dst.GWrit {
@@ -434,6 +445,52 @@ func (x *Exec) havocPhis(st *State, fr *Frame, b *ssa.BasicBlock) {
 		}
 		old := fr.env[phi]
 		fr.env[phi] = x.havocValLike(st, old, hint, phi.Type())
+		if phi.Comment == "rangeindex" {
+			x.assumeRangeIndex(st, fr, b, phi)
+		}
+	}
+}
+
+// assumeRangeIndex: the hidden index of a `for range` over a slice, array or string is a phi of -1 (entry) and
+// index+1 (every back edge, taken only after index+1 < len held), with len evaluated once before the loop. So
+// -1 <= index, and index < len unless index == -1, is an invariant of the SSA construction itself, not of the
+// program; it is assumed at the cut instead of being demanded from every contract.
+func (x *Exec) assumeRangeIndex(st *State, fr *Frame, b *ssa.BasicBlock, phi *ssa.Phi) {
+	var inc *ssa.BinOp
+	for _, in := range b.Instrs {
+		bo, ok := in.(*ssa.BinOp)
+		if !ok {
+			continue
+		}
+		if inc == nil {
+			if c, isC := bo.Y.(*ssa.Const); bo.Op == token.ADD && bo.X == phi && isC && c.Value != nil && c.Value.ExactString() == "1" {
+				inc = bo
+			}
+			continue
+		}
+		if bo.Op == token.LSS && bo.X == inc {
+			// both edges into the header must be the -1 constant and the increment itself
+			for _, e := range phi.Edges {
+				if e == inc {
+					continue
+				}
+				if c, isC := e.(*ssa.Const); !isC || c.Value == nil || c.Value.ExactString() != "-1" {
+					return
+				}
+			}
+			if _, bound := fr.env[bo.Y]; !bound {
+				if _, isC := bo.Y.(*ssa.Const); !isC {
+					return
+				}
+			}
+			idx, ok1 := fr.env[phi].(T)
+			n, ok2 := x.val(st, fr, bo.Y).(T)
+			if !ok1 || !ok2 || idx.So != SInt || n.So != SInt {
+				return
+			}
+			st.assume(And(Ge(idx, IntLit(-1)), Or(Eq(idx, IntLit(-1)), Lt(idx, n))), "range index of the SSA range loop")
+			return
+		}
 	}
 }
 
